@@ -50,6 +50,10 @@ class SymmetricQuantizer(Function):
                 raise ValueError(
                     "When quantizing per-axis, the scale must be broadcastable to the base (Tip: try to add missing dims of length zero)."
                 )
+            expected_shape = [1] * base.ndim
+            expected_shape[axis] = base.shape[axis]
+            if list(scale.shape) != expected_shape:
+                raise ValueError(f"When quantizing along axis {axis}, the scale must have one value per index of that axis.")
         data = base / scale
         if not qtype.is_floating_point:
             data = torch.round(data)
